@@ -39,7 +39,8 @@ impl log::Log for StderrLog {
         true
     }
     fn log(&self, r: &log::Record) {
-        eprintln!("[{} {}] {}", r.level(), r.target(), r.args());
+        static T0: std::sync::OnceLock<std::time::Instant> = std::sync::OnceLock::new();
+        eprintln!("[{:>8.3} {} {}] {}", T0.get_or_init(std::time::Instant::now).elapsed().as_secs_f64(), r.level(), r.target(), r.args());
     }
     fn flush(&self) {}
 }
